@@ -236,6 +236,35 @@ func (vc *VC) resolveTargets(e *Expr, env *SpecEnv) []target {
 	return nil
 }
 
+// knownSibling: a recorded finding with a witness class - the obligation must still hold for every entry
+// state outside the class, so a different violation of the same clause is still reported.
+func (vc *VC) knownSibling(o *Obligation, name string, guard T, goal func() T) {
+	if o == nil || vc.eng.known == nil {
+		return
+	}
+	for i := range vc.eng.known.Findings {
+		kf := &vc.eng.known.Findings[i]
+		if kf.Status != "known" || kf.ClassSpec == "" || !kf.matches(o.Name) {
+			continue
+		}
+		ce, err := parseSpec(kf.ClassSpec)
+		if err != nil {
+			vc.errorf("known finding %s: class_spec: %v", kf.ID, err)
+			continue
+		}
+		cls := vc.evalBool(ce, vc.topEnv(vc.entry))
+		o.KnownID = kf.ID
+		if kf.WitnessSpec != "" {
+			if we, err := parseSpec(kf.WitnessSpec); err == nil {
+				o.Witness = vc.evalBool(we, vc.topEnv(vc.entry))
+			} else {
+				vc.errorf("known finding %s: witness_spec: %v", kf.ID, err)
+			}
+		}
+		vc.oblige(o.Kind, fmt.Sprintf("%s.outside[%s]", name, kf.ID), and(guard, not(cls)), goal())
+	}
+}
+
 // isLibState: the heap holds library-private state (declared by `//@ library_state` in the package's contract
 // file): no contract constrains it, no frame is demanded for it, every call havocs it.
 func (vc *VC) isLibState(heap string) bool {
@@ -488,31 +517,7 @@ func (e *Engine) runPass(vc *VC) {
 				continue
 			}
 			o := vc.oblige("post", fmt.Sprintf("ret%d.post.%s", k+1, tag), r.guard, vc.evalGoal(cl.Expr, penv))
-			// a recorded finding with a witness class: the obligation must still hold for every entry
-			// state outside the class, so a different violation of the same clause is still reported
-			if o != nil && vc.eng.known != nil {
-				for i := range vc.eng.known.Findings {
-					kf := &vc.eng.known.Findings[i]
-					if kf.Status != "known" || kf.ClassSpec == "" || kf.Obligation != o.Name {
-						continue
-					}
-					ce, err := parseSpec(kf.ClassSpec)
-					if err != nil {
-						vc.errorf("known finding %s: class_spec: %v", kf.ID, err)
-						continue
-					}
-					cls := vc.evalBool(ce, vc.topEnv(vc.entry))
-					o.KnownID = kf.ID
-					if kf.WitnessSpec != "" {
-						if we, err := parseSpec(kf.WitnessSpec); err == nil {
-							o.Witness = vc.evalBool(we, vc.topEnv(vc.entry))
-						} else {
-							vc.errorf("known finding %s: witness_spec: %v", kf.ID, err)
-						}
-					}
-					vc.oblige("post", fmt.Sprintf("ret%d.post.%s.outside[%s]", k+1, tag, kf.ID), and(r.guard, not(cls)), vc.evalGoal(cl.Expr, penv))
-				}
-			}
+			vc.knownSibling(o, fmt.Sprintf("ret%d.post.%s", k+1, tag), r.guard, func() T { return vc.evalGoal(cl.Expr, penv) })
 		}
 		for _, inv := range vc.invariantsOf(con) {
 			ienv := *penv
@@ -600,6 +605,9 @@ func (vc *VC) matchExc(ps panicSite, cl *Clause) T {
 
 // frameObligations: every heap the function touched is unchanged outside its modifies set.
 func (vc *VC) frameObligations(ret int, r retSite, entryEnv *SpecEnv) {
+	if vc.con.ModAll {
+		return
+	}
 	var targets []target
 	for _, cl := range vc.con.Clauses {
 		if cl.Kind != "modifies" {
